@@ -241,7 +241,11 @@ def parser():
         common.load_repo()
         import hotxlfp
         _p[0] = hotxlfp.Parser()
+        _p[0].on('callCellValue', lambda cell, setter: setter(_cells.get(cell.label)))
     return _p[0]
+
+
+_cells = {}
 
 
 def direct(name, args):
@@ -283,6 +287,10 @@ def forms(c):
             out.append(('fn', n, [v]))
         for n in PREDS:
             out.append(('formula', '%s(v)' % n, {'v': v}))
+        # ... and as the value of a cell, answered by the host's listener (0, FALSE and empty text are values, not blanks); these
+        # evaluations are judged by the oracle only
+        for n in PREDS:
+            out.append(('formula-cell', '%s(C3)' % n, {'C3': v}))
         return out
     # function + token arguments
     args = c['args']
@@ -323,6 +331,10 @@ def impl(c):
     for f in forms(c):
         if f[0] == 'fn':
             res.append((f[0], f[1], direct(f[1], f[2])))
+        elif f[0] == 'formula-cell':
+            _cells.clear()
+            _cells.update(f[2])
+            res.append((f[0], f[1], parser().parse(f[1])))
         else:
             res.append((f[0], f[1], run_formula(f[1], f[2])))
     return res
@@ -517,7 +529,7 @@ def oracle_pred(c, impl_ans):
 
         def bad(n, why):
             o = out[n]
-            return '%s on %s -> %s; %s' % (describe(res[n]) if res[n][0] == 'formula' else 'direct call ' + n, describe_val(tok),
+            return '%s on %s -> %s; %s' % (describe(res[n]) if res[n][0] != 'fn' else 'direct call ' + n, describe_val(tok),
                                             CODES.get(o[1], o[1]) if o[0] == 'err' else repr(o[1]), why)
         # the five classifiers answer a logical, TRUE exactly on their kind
         for n, kk in FIVE.items():
